@@ -380,7 +380,7 @@ impl<'a> Bfs<'a> {
             assert(v == it1.seq()[it1.index()]);
             assert(v < self.visited@.len()) by { reveal(loop_inv); }
         }
-    @after `self.queue.push_back(v);`
+    @after `self.queue.push`
         proof {
             add = add_pre.push(v as int);
             assert(self.queue@ =~= old(self).queue@.skip(1) + new_entries1(add));
@@ -539,7 +539,7 @@ impl<'a> BfsDist<'a> {
         r.queue@.len() == sources.remaining().len(),
         forall|i: int| 0 <= i < sources.remaining().len() ==> #[trigger] r.queue@[i] == (sources.remaining()[i], 0usize),
         forall|i: int| 0 <= i < sources.remaining().len() ==> #[trigger] sources.remaining()[i] < digraph.ord(),
-    @after `let mut visited = vec![false; order];`
+    @after `let mut visited =`
         proof { lemma_ct_false(visited@); }
     @loop 1
     invariant
@@ -619,7 +619,7 @@ impl<'a> BfsDist<'a> {
             lemma_ct_bounds(self.visited@);
         }
         let ghost mut add: Seq<int> = Seq::empty();
-    @after `let w_next = w + 1;`
+    @after `let w_next =`
         proof {
             assert(self.queue@ =~= old(self).queue@.skip(1) + new_entries(add, w_next));
             lemma_loop_init(self.digraph, u, self.visited@);
@@ -643,7 +643,7 @@ impl<'a> BfsDist<'a> {
             assert(v == it1.seq()[it1.index()]);
             assert(v < self.visited@.len()) by { reveal(loop_inv); }
         }
-    @after `self.queue.push_back((v, w_next));`
+    @after `self.queue.push`
         proof {
             add = add_pre.push(v as int);
             assert(self.queue@ =~= old(self).queue@.skip(1) + new_entries(add, w_next));
@@ -688,7 +688,7 @@ impl<'a> BfsDist<'a> {
         self.queue@.len() == 0,
     decreases
         self.fuel(),
-    @before `*ptr.add(u) = w;`
+    @before `*ptr.add(u) =`
         proof {
             assert(prev.inv(old(self).srcs()));
             assert(next_sem2(prev.digraph, prev.queue@, prev.visited@, self.queue@, self.visited@, old(self).srcs()));
